@@ -52,6 +52,19 @@ func genCrash(r *sim.Rand, tier, prop string) *sim.Case {
 	if tier == "thorough" {
 		n = 8 + r.Intn(32)
 	}
+	// Value-log variant (C11, 1 case in 3): out-of-line values in several buckets of
+	// tiny segments, so that segments fill, are sealed and collected; the maintenance
+	// after the reopen is mostly value-log GC and is followed by three clean reopens
+	// (what a GC pass recorded in the manifest is acted upon at the next Open).
+	vlogv := prop == "C11" && r.Intn(3) == 0
+	if vlogv {
+		c.Cfg["api"] = 2
+		c.Cfg["value_threshold"] = r.Pick64(32, 64)
+		c.Cfg["vlog_file_size"] = r.Pick64(256, 512)
+		c.Cfg["vlog_buckets"] = r.Pick64(2, 4)
+		c.Cfg["reopen_cycles"] = 3
+		n += 6
+	}
 	written := map[string]bool{}
 	// key pattern for plain overwrites: uniform, or a window of two keys that
 	// moves on at every rotation with an occasional wide write (L0 tables with
@@ -89,7 +102,11 @@ func genCrash(r *sim.Rand, tier, prop string) *sim.Case {
 			}
 		} else {
 			set := int64(1 + r.Intn((1<<nkeys)-1))
-			c.Ops = append(c.Ops, sim.Op{K: "txn", A: set, B: int64(r.Intn(1 << nkeys)), C: int64(r.Intn(6)), D: int64(r.Pick(0, 0, 0, 2))})
+			vc := int64(r.Intn(6))
+			if vlogv && r.Intn(4) != 0 {
+				vc = int64(3 + r.Intn(3)) // out of line
+			}
+			c.Ops = append(c.Ops, sim.Op{K: "txn", A: set, B: int64(r.Intn(1 << nkeys)), C: vc, D: int64(r.Pick(0, 0, 0, 2))})
 		}
 	}
 	if prop == "C11" {
@@ -102,6 +119,12 @@ func genCrash(r *sim.Rand, tier, prop string) *sim.Case {
 			m := GenMaint(r)
 			if m.K == "reopen" || m.K == "advance" {
 				m = sim.Op{K: "flushall"}
+			}
+			if vlogv && r.Intn(3) != 0 {
+				m = sim.Op{K: "gc", A: int64(r.Intn(16)), B: int64(r.Intn(2))}
+				if r.Intn(4) == 0 {
+					m = sim.Op{K: "rungc"}
+				}
 			}
 			m.S = "post"
 			c.Ops = append(c.Ops, m)
@@ -213,8 +236,11 @@ func sameSeqs(rec map[string][]recEntry, mod map[string][]batchWrite) bool {
 	return true
 }
 
-func execCrash(t *testing.T, c *sim.Case, prop string) *sim.Result {
-	res := sim.NewResult()
+func execCrash(t *testing.T, c *sim.Case, prop string) (res *sim.Result) {
+	res = sim.NewResult()
+	// An Open that fails half-way (reported as a violation) leaves the goroutines it had
+	// started behind; synctest ends such a bubble with a deadlock panic.
+	defer recoverBubbleDeadlock(res)
 	synctest.Test(t, func(t *testing.T) {
 		w := NewWorld(t, c, res)
 		defer w.Cleanup()
@@ -651,6 +677,14 @@ func checkImage(t *testing.T, c *sim.Case, res *sim.Result, prop string, n int, 
 		}
 		again := Dump(iw)
 		DiffDumps(iw, "second_reopen_changed_contents", hz, after, again, where+": second reopen")
+		for cyc := 1; cyc < int(c.CfgInt("reopen_cycles", 1)) && len(res.Violations) == nv0; cyc++ {
+			_ = iw.Close()
+			if err := iw.Open(img.dir); err != nil {
+				res.Violate(n, "second_reopen_failed", nil, "%s: reopen cycle %d: %v", where, cyc+1, err)
+				return
+			}
+			DiffDumps(iw, "second_reopen_changed_contents", hz, after, Dump(iw), fmt.Sprintf("%s: reopen cycle %d", where, cyc+1))
+		}
 	}
 }
 
